@@ -14,6 +14,8 @@ CLAIMS = {
          "Partial by nature: process exit status, file system, recursion limit are observed, not modelled. Termination (fuel bounds) is not yet a theorem. Known findings F21, F22.", "8/C17"),
  'C18': ("Lean theorems on the output model: count = number of listed paths and one instruction list per block occurrence, success iff no error, --filter-paths removes exactly the matching paths (parametric in the matcher), path marks by block id; + every exported file is PARSED BACK on every run: JSON envelope / count / short notations / per-block instruction lists, cfg DOT node set, node line numbers and edge set = global graph, path DOT marks = path blocks, transaction-context annotations = computed contexts, subroutine-cfg node sets, call-graph edges, --filter-paths results",
          "Partial by nature: files on disk and Python's re are external. The DOT reader understands exactly the shapes tealer emits.", "8/C18"),
+ 'C20': ("Lean model of _is_match / _find_instructions (Regex.lean) with the theorem that every reported match starts at an instruction reachable from the label at which the pattern occurs consecutively in straight-line code, lists those instructions in order, and every covered instruction is reachable (C20_sound, by induction on the search with an invariant over visited / matches / covered); + correspondence of matches and covered with the real match_regex; + independent reachability-closure oracle for completeness of the match set and soundness of covered",
+         "Completeness of `covered` is false on the unchanged tree (known finding F23); completeness of the match set is decided by the oracle, not yet a theorem.", "8/C20"),
  'C16': ("Lean theorems (kernel decide over the parse table REGENERATED from the real parse_line on every run): every opcode sample is parsed into the class and printed form of the specification table (no prefix capture), its printed form parses back to an identical instruction, unknown opcodes are kept verbatim; + the real parser run on every sample x whitespace/comment variants, decimal/hex/octal integer spellings, hex/base64/base32 byte forms, programs with blank and comment lines for the recorded line numbers",
          "Python's int(), base64 and re are not modelled (partial by nature). Known finding F19 (method signature printed without quotes).", "8/C16"),
  'C19': ("Lean theorems (kernel decide over regenerated tables): introduction version, execution mode and per-version opcode cost of every sample equal the specification tables; model of the version flag and of mode detection; + the real parse_teal run on every sample x declared versions 1..8 (stderr of the version check), random mode mixtures (mode, mixed-mode report, contract type) and random blocks (displayed cost = sum of table costs)",
